@@ -35,6 +35,7 @@ def histOutputs (ops : List Op) : List String :=
 
 def histOps (op : String) (a : List String) : Option String :=
   match op with
+  | "hist.fobs" => some "ok"
   | "hist.run" => some ("|".intercalate (histOutputs (a.filterMap parseHistOp)))
   | "hist.obs" =>
     let ops := a.filterMap parseHistOp
